@@ -8,7 +8,7 @@ pub fn split(pos: &mut Position, depth: u8) {
     let start = Instant::now();
     for mv in moves {
         let npos = pos.after_move::<false>(&mv);
-        let nodes = npos.perft(depth - 1);
+        let nodes = npos.perft(depth.saturating_sub(1));
         total += nodes;
 
         println!("{} {nodes}", mv.to_uci(pos));
